@@ -219,6 +219,8 @@ void harness_labels(void)
 		__CPROVER_assume(pos < j0);
 		r0 = dnsref_name(buf, j0, pos, ev, (int)sizeof(ev) - 1, NULL, &txt, NULL);
 		__CPROVER_assume(r0 == DNSREF_OK);
+		__CPROVER_assume(dnsref_name_odd == 0);     /* entries come from dotted C strings: no '.'/NUL inside a label */
+		__CPROVER_assume(dnsref_name_fwdptr == 0);  /* ... written by this encoder: backward pointers only */
 		r0 = dnslabel_table_add(&table, ev, pos);
 		VP_ASSERT(r0 == 0, "C35: dnslabel_table_add failed below MAX_LABELS");
 	}
